@@ -38,6 +38,13 @@ def check(ctx, report):
     report.rule('C15.R3', 'the values ignored as GREASE are exactly the RFC 8701 values')
     from .c10 import grease_classification
     grease_classification(ctx, report, 'C15.R3')
+    # the fingerprint does not change when the hello is composed and parsed again: what the hello composer writes for its list
+    # valued attributes are the items of those attributes, nothing it makes up on the way (rule shared with C01.R2)
+    report.rule('C15.R6', 'the client hello composer adds no item of its own to the lists it writes (the fingerprint survives compose / parse)')
+    from .c01 import composer_added_items
+    hello = model.try_cls('TlsHandshakeClientHello')
+    if hello is not None:
+        composer_added_items(ctx, report, 'C15.R6', [hello])
     # the fingerprint is a function of the message alone: nothing on the way from bytes to ja3 (hello, extensions, code point
     # wrappers) keeps class level state; a memo table is accepted when its key names every parameter the function uses, the class
     # it dispatches on included (a memo keyed by part of what the entry depends on answers for another input)
@@ -263,7 +270,17 @@ def ja3_tabulation(ctx, report, f, cons, spec):
             return getattr(v, '_cls', None) in names
         return NotImplemented
 
+    tokens = {}
+
+    def token(name):
+        # a member of an enum of the dependency that the model does not load: equal to itself only
+        if name not in tokens:
+            tokens[name] = Obj(name=name.split('.')[-1], _token=name)
+        return tokens[name]
+
     def names(name):
+        if name.startswith('NamedGroupType.'):
+            return token(name)
         if name.startswith('TlsExtensionType.') and name.split('.', 1)[1] in ext_tokens:
             return ext_tokens[name.split('.', 1)[1]]
         if name == 'TlsInvalidType.GREASE':
@@ -271,9 +288,33 @@ def ja3_tabulation(ctx, report, f, cons, spec):
         if name == 'TlsInvalidType.UNKNOWN':
             return UNKNOWN
         raise Unsupported('free name %s' % name)
+    def group(code, kind='ELLIPTIC_CURVE'):
+        # a member of the named group registry as the data tables describe it: code, and the group with its type
+        m = Obj(value=Obj(code=code, named_group=Obj(value=Obj(group_type=token('NamedGroupType.' + kind), size=256), name='G%d' % code)), _cls='TlsNamedCurve')
+        m._isa = {'TlsNamedCurve', 'Enum', 'CryptoDataEnumCodedBase'}
+        return m
+    # the classes that hold the two lists: the list is stored in the attrs field the class declares, whatever its name; an
+    # attribute of another name that ja3 reads is a property of the class and is evaluated from its own statements
+    ext_classes = {}
+    for k in ctx.model.repo_classes():
+        if k.is_subclass_of('TlsExtensionParsed') and not k.abstract_methods and k.resolve('get_extension_type') is not None:
+            t = ctx.interp.const_call(k, 'get_extension_type')
+            tn = getattr(t, 'name', None)
+            if tn in ('SUPPORTED_GROUPS', 'EC_POINT_FORMATS'):
+                own = [fl.name for fl in k.attrs_fields() if fl.name != 'extension_type']
+                if len(own) == 1:
+                    ext_classes[tn] = (k, own[0])
+
+    class Ext(Native):
+        def __init__(self, kind, items):
+            k, field = ext_classes[kind]
+            self._repo_class = k
+            self.extension_type = ext_tokens[kind]
+            setattr(self, field, list(items))
     cipher_sets = [('plain', [member(4865), member(49199)], [4865, 49199]),
                    ('grease', [invalid(0x0a0a, GREASE, 2), member(4865), invalid(0x1234, UNKNOWN, 2)], [4865, 0x1234])]
-    group_sets = [('plain', [member(29), member(23)], [29, 23]), ('grease', [invalid(0x1a1a, GREASE, 2), member(29), invalid(0x9999, UNKNOWN, 2)], [29, 0x9999])]
+    group_sets = [('plain', [group(29), group(23), group(256, 'FINITE_FIELD'), group(24)], [29, 23, 256, 24]),
+                  ('grease', [invalid(0x1a1a, GREASE, 2), group(29), invalid(0x9999, UNKNOWN, 2), group(260, 'FINITE_FIELD')], [29, 0x9999, 260])]
     format_sets = [('plain', [member(0), member(1), member(2)], [0, 1, 2]), ('grease', [invalid(0x0b, GREASE, 1), member(0), invalid(0x05, UNKNOWN, 1)], [0, 5])]
     layouts = [('none', []), ('sni-only', ['SERVER_NAME']), ('groups-formats', ['SERVER_NAME', 'SUPPORTED_GROUPS', 'EC_POINT_FORMATS', 'SESSION_TICKET']),
                ('formats-groups', ['EC_POINT_FORMATS', 'SUPPORTED_GROUPS']), ('formats-only', ['SERVER_NAME', 'EC_POINT_FORMATS']),
@@ -304,10 +345,10 @@ def ja3_tabulation(ctx, report, f, cons, spec):
                     else:
                         e = Obj(extension_type=ext_tokens[kind])
                         if kind == 'SUPPORTED_GROUPS':
-                            e.elliptic_curves = list(groups)
+                            e = Ext(kind, groups) if kind in ext_classes else Obj(extension_type=ext_tokens[kind], elliptic_curves=list(groups))
                             grp_want = gwant
                         if kind == 'EC_POINT_FORMATS':
-                            e.point_formats = list(formats)
+                            e = Ext(kind, formats) if kind in ext_classes else Obj(extension_type=ext_tokens[kind], point_formats=list(formats))
                             fmt_want = fwant
                         exts.append(e)
                         ext_want.append(EXT[kind])
